@@ -41,6 +41,32 @@ def escalate(pair, h, res, r):
     return found
 
 
+def word_history(r):
+    """medium cores (30..200 blocks in a few batches) with clears whose ranges cross the 32-bit word borders of a bitfield
+    page, end beyond the length or inside an earlier cleared region, placed right after a reopen (= a flushing call), and
+    reopened again immediately: what a flush persisted of a clear is read back before anything else rewrites the page"""
+    h, n = [], 0
+    for _ in range(r.choice([1, 2, 3])):
+        k = r.choice([30, 33, 64, 70, 100])
+        h.append(("append", [bytes([r.randrange(256)]) * r.choice([0, 1, 2]) for _ in range(k)])); n += k
+    for _ in range(r.choice([1, 2, 3])):
+        if r.random() < 0.7:
+            h.append(("reopen",))
+        w = 32 * r.randrange(1, max(2, n // 32 + 1))
+        s = max(0, min(n - 1, w - r.choice([1, 2, 12, 31])))
+        e = r.choice([w + r.choice([0, 1, 8]), n + r.choice([0, 1, 40]), w + 32 + r.choice([0, 5])])
+        if e <= s:
+            e = s + 1
+        h.append(("clear", s, e))
+        if r.random() < 0.8:
+            h.append(("reopen",))
+        if r.random() < 0.4:
+            h.append(("append", [b"z"] * r.choice([1, 3])))
+            n += len(h[-1][1])
+    h.append(("reopen",))
+    return h
+
+
 def main(tier, seed):
     res = Result("C01", tier, seed)
     res.gate = coq_gate("C01.v", clean=(tier == "thorough"))
@@ -60,6 +86,8 @@ def main(tier, seed):
             hs.append(("random", random_history(r, r.choice([6, 12, 25, 60]))))
         for _ in range(120 if tier == "quick" else 3000):
             hs.append(("epochs", epoch_history(r)))
+        for _ in range(40 if tier == "quick" else 1500):
+            hs.append(("words", word_history(r)))
         # large cores: cross 8192 / 32768 / 65536 blocks
         big = [("append", [b"\x01"] * 9000), ("reopen",), ("get", 8191), ("get", 8999), ("clear", 4000, 4100),
                ("reopen",), ("append", [b"\x02"] * 25000), ("reopen",), ("get", 33999)]
